@@ -598,6 +598,7 @@ def run(res, tier):
     res.rule("SIGN-4", "a Galois element computed with `%` and stored with set_p is reduced modulo cyclotomic_order() / 2 * n()")
     res.rule("RAD-3", "min / max of the limb counts of two objects only where their radices are known equal")
     res.rule("ROW-1", "row accessors X.at(row, ..) / X.at_mut(row, ..) in a row loop: the loop bound stays within X.dnum() under the comparisons that dominate the access")
+    res.rule("RAD-4", "the two arms of a radix-equality decision fill every common object from the same columns of the operands that exist before the decision")
     res.rule("UNIT-1", "comparisons, min and max between limb counts, key row counts and bit precisions (limbs = rows * dsize, bits = limbs * base2k) relate quantities of the same unit")
     res.rule("RAD-1", "a cross-radix conversion skipped / taken on a radix comparison is guarded by the comparison of exactly its input and output radices")
     res.rule("RAD-2", "no call of an operation asserting equal radices of two arguments sits on a branch whose guards imply that they differ")
@@ -632,5 +633,7 @@ def run(res, tier):
         nrow = rad.row1(p, res, RAD_PREFIXES + ("poulpy_core::api::keyswitching", "poulpy_core::api::automorphism"))
         nu = rad.unit1(p, res, RAD_PREFIXES + ("poulpy_core::api::keyswitching", "poulpy_core::api::automorphism", "poulpy_core::api::conversion"))
         res.floor("UNIT-1", "comparisons / min / max between quantities of known units", nu, 11)
+        nr4 = rad.rad4(p, res, RAD_PREFIXES + ("poulpy_core::api::conversion",))
+        res.floor("RAD-4", "objects filled in both arms of a radix decision", nr4, 1)
         res.floor("ROW-1", "row accessors in row loops", nrow, 18)
         res.fn_count += n + n3
